@@ -156,6 +156,9 @@ def select_ignore_interrupts(iwtd, owtd, ewtd, timeout=None):
                 raise
 
 
+_POLL_MAX_MS = 2 ** 31 - 1
+
+
 def poll_ignore_interrupts(fds, timeout=None):
     '''Simple wrapper around poll to register file descriptors and
     ignore signals.'''
@@ -170,7 +173,17 @@ def poll_ignore_interrupts(fds, timeout=None):
     while True:
         try:
             timeout_ms = None if timeout is None else timeout * 1000
-            results = poller.poll(timeout_ms)
+            if timeout_ms is not None and timeout_ms > _POLL_MAX_MS:
+                # poll() takes its timeout as milliseconds in a C int and
+                # refuses anything longer (about 24.8 days): wait that long
+                # in instalments.
+                results = poller.poll(_POLL_MAX_MS)
+                if not results:
+                    timeout = end_time - time.time()
+                    if timeout > 0:
+                        continue
+            else:
+                results = poller.poll(timeout_ms)
             return [afd for afd, _ in results]
         except InterruptedError:
             err = sys.exc_info()[1]
